@@ -8,7 +8,11 @@ import (
 	"go/ast"
 	"go/types"
 	"sort"
+
+	"golang.org/x/tools/go/ssa"
 )
+
+type ssaCall = ssa.CallInstruction
 
 type CallSite struct {
 	Fn      *Fn
@@ -225,4 +229,64 @@ func (p *Prog) localClosure(fn *Fn, c *ast.CallExpr) *Fn {
 		return nil
 	}
 	return p.ByLit[lit]
+}
+
+// CallReaches: the call's callee is (or can reach, through first-party code) a function satisfying pred.
+func (c *Ctx) CallReaches(fn *Fn, call *ast.CallExpr, pred func(*types.Func) bool) bool {
+	cf := c.P.Callee(fn, call)
+	if cf == nil {
+		return false
+	}
+	if pred(cf) {
+		return true
+	}
+	var roots []*Fn
+	for _, cs := range c.CG.Sites(orig(fn)) {
+		if cs.Call == call {
+			roots = append(roots, cs.Targets...)
+		}
+	}
+	if len(roots) == 0 {
+		if t := c.P.ByObj[cf]; t != nil {
+			roots = []*Fn{t}
+		}
+	}
+	for t := range c.CG.Reach(roots, false) {
+		if t.Obj != nil && pred(t.Obj) {
+			return true
+		}
+		// calls made by t to interface methods satisfying pred
+		for _, cs := range c.CG.Sites(t) {
+			if cs.Callee != nil && pred(cs.Callee) {
+				return true
+			}
+		}
+	}
+	return false
+}
+
+// SSAReaches: same for an SSA call instruction.
+func (c *Ctx) SSACallReaches(call ssaCall, pred func(*types.Func) bool) bool {
+	f := calleeOf(call)
+	if f == nil {
+		return false
+	}
+	if pred(f) {
+		return true
+	}
+	t := c.P.ByObj[f]
+	if t == nil {
+		return false
+	}
+	for u := range c.CG.Reach([]*Fn{t}, false) {
+		if u.Obj != nil && pred(u.Obj) {
+			return true
+		}
+		for _, cs := range c.CG.Sites(u) {
+			if cs.Callee != nil && pred(cs.Callee) {
+				return true
+			}
+		}
+	}
+	return false
 }
